@@ -1,0 +1,138 @@
+//go:build verif
+
+package local
+
+// Read-only accessors used by the runtime-verification harness in /verif.
+// This file is only compiled with the "verif" build tag. None of the
+// functions below takes the store's global lock: the caller must hold it
+// (the harness owns the *sync.RWMutex it passes to the constructors).
+
+// VerifFreeOffsetsSectors returns a copy of the free list of a
+// block-device-backed allocator, taken under the allocator's own lock.
+func VerifFreeOffsetsSectors(a BlockAllocator) ([]int64, bool) {
+	pa, ok := a.(*blockDeviceBackedBlockAllocator)
+	if !ok {
+		return nil, false
+	}
+	pa.lock.Lock()
+	defer pa.lock.Unlock()
+	return append([]int64(nil), pa.freeOffsets...), true
+}
+
+// VerifBlockInfo describes a block-device-backed block.
+type VerifBlockInfo struct {
+	DeviceOffsetSectors int64
+	WriteOffsetSectors  int64
+	UseCount            int64
+	SharedSectorOffset  int // -1 if there is no shared sector
+}
+
+// VerifGetBlockInfo returns the state of a block-device-backed block.
+func VerifGetBlockInfo(b Block) (VerifBlockInfo, bool) {
+	pb, ok := b.(*blockDeviceBackedBlock)
+	if !ok {
+		return VerifBlockInfo{}, false
+	}
+	i := VerifBlockInfo{
+		DeviceOffsetSectors: pb.deviceOffsetSectors,
+		WriteOffsetSectors:  pb.writeOffsetSectors,
+		UseCount:            pb.usecount.Load(),
+		SharedSectorOffset:  -1,
+	}
+	if pb.sharedSector != nil {
+		i.SharedSectorOffset = pb.sharedSector.writeOffsetBytes
+	}
+	return i, true
+}
+
+// VerifPersistentBlock is the per-block part of a PersistentBlockList snapshot.
+type VerifPersistentBlock struct {
+	Block                    Block
+	OffsetBytes              int64
+	WrittenOffsetBytes       int64
+	SynchronizingOffsetBytes int64
+	SynchronizedOffsetBytes  int64
+	EpochCount               int
+}
+
+// VerifPersistentBlockListSnapshot is a copy of the bookkeeping of a
+// PersistentBlockList.
+type VerifPersistentBlockListSnapshot struct {
+	ClosedForWriting            bool
+	Blocks                      []VerifPersistentBlock
+	EpochHashSeeds              []uint64
+	EpochLastAbsoluteBlockIndex []int
+	TotalBlocksReleased         int
+	OldestEpochID               uint32
+	SynchronizingEpochs         int
+	SynchronizedEpochs          int
+	BlockPutWakeupBlocking      bool
+	BlocksToRelease             []Block
+	BlocksReleasing             int
+	BlockReleaseWakeupBlocking  bool
+}
+
+// VerifSnapshot copies the bookkeeping of the block list.
+func (bl *PersistentBlockList) VerifSnapshot() VerifPersistentBlockListSnapshot {
+	s := VerifPersistentBlockListSnapshot{
+		ClosedForWriting:            bl.closedForWriting,
+		EpochHashSeeds:              append([]uint64(nil), bl.epochHashSeeds...),
+		EpochLastAbsoluteBlockIndex: append([]int(nil), bl.epochLastAbsoluteBlockIndex...),
+		TotalBlocksReleased:         bl.totalBlocksReleased,
+		OldestEpochID:               bl.oldestEpochID,
+		SynchronizingEpochs:         bl.synchronizingEpochs,
+		SynchronizedEpochs:          bl.synchronizedEpochs,
+		BlockPutWakeupBlocking:      bl.blockPutWakeup.isBlocking,
+		BlocksToRelease:             append([]Block(nil), bl.blocksToRelease...),
+		BlocksReleasing:             bl.blocksReleasing,
+		BlockReleaseWakeupBlocking:  bl.blockReleaseWakeup.isBlocking,
+	}
+	for _, b := range bl.blocks {
+		vb := VerifPersistentBlock{
+			Block:                    b.block,
+			WrittenOffsetBytes:       b.writtenOffsetBytes,
+			SynchronizingOffsetBytes: b.synchronizingOffsetBytes,
+			SynchronizedOffsetBytes:  b.synchronizedOffsetBytes,
+			EpochCount:               b.epochCount,
+		}
+		if b.blockLocation != nil {
+			vb.OffsetBytes = b.blockLocation.OffsetBytes
+		}
+		s.Blocks = append(s.Blocks, vb)
+	}
+	return s
+}
+
+// VerifVolatileBlocks returns the blocks held by a volatile block list.
+func VerifVolatileBlocks(bl BlockList) ([]Block, bool) {
+	vbl, ok := bl.(*volatileBlockList)
+	if !ok {
+		return nil, false
+	}
+	out := make([]Block, 0, len(vbl.blocks))
+	for _, b := range vbl.blocks {
+		out = append(out, b.block)
+	}
+	return out, true
+}
+
+// VerifLocationBlobMapSnapshot is a copy of the partition counters of an
+// OldCurrentNewLocationBlobMap.
+type VerifLocationBlobMapSnapshot struct {
+	OldBlocks               int
+	CurrentBlocks           int
+	NewBlocks               int
+	TotalBlocksReleased     uint64
+	TotalBlocksToBeReleased uint64
+}
+
+// VerifSnapshot copies the partition counters.
+func (lbm *OldCurrentNewLocationBlobMap) VerifSnapshot() VerifLocationBlobMapSnapshot {
+	return VerifLocationBlobMapSnapshot{
+		OldBlocks:               len(lbm.oldBlocks),
+		CurrentBlocks:           lbm.currentBlocks,
+		NewBlocks:               lbm.newBlocks,
+		TotalBlocksReleased:     lbm.totalBlocksReleased,
+		TotalBlocksToBeReleased: lbm.totalBlocksToBeReleased.Load(),
+	}
+}
